@@ -213,12 +213,14 @@ Theorem any_qc_sound c st bq ag pick :
   verify_any_qc_with c st bq ag pick = Ok tt ->
   verify_qc c st bq = Ok tt /\
   (c_aggqc c = true -> forall a, ag = Some a ->
-     exists h, pick (verify_aggqc c st a) = Ok h /\ qc_equals bq h = true).
+     exists h, pick (verify_aggqc c st a) = Ok h /\ qc_view bq = qc_view h /\ qc_hash bq = qc_hash h).
 Proof.
   unfold verify_any_qc_with. destruct (c_aggqc c); [destruct ag as [a|]|]; cbn.
   - destruct (aq_sig a); [|discriminate].
     destruct (pick (verify_aggqc c st a)) as [h| |] eqn:E; try discriminate.
-    destruct (qc_equals bq h) eqn:Eq; cbn [negb]; [|discriminate].
+    destruct (qc_same_block bq h) eqn:Eq; cbn [negb]; [|discriminate].
+    unfold qc_same_block in Eq. apply andb_true_iff in Eq. destruct Eq as [E1 E2].
+    apply N.eqb_eq in E1, E2.
     intros H. split; [assumption|]. intros _ a' Ha. inversion Ha; subst. now exists h.
   - intros H. split; [assumption|]. intros _ a' Ha. discriminate.
   - intros H. split; [assumption|]. intros Hf. discriminate.
